@@ -154,6 +154,20 @@ func runC18(p *Prog, r *Report, tier string) {
 			names = append(names, k)
 		}
 		sort.Strings(names)
+		// only audited fields may be set: anything else (session caches, custom dialers, verification hooks, cipher lists,
+		// key log writers, ...) changes what a completed session guarantees and is not vouched for
+		allow := map[string]map[string]bool{
+			"client/tls":  {"RootCAs": true, "ServerName": true, "MinVersion": true, "Certificates": true},
+			"server/tls":  {"Certificates": true, "ClientAuth": true, "ClientCAs": true, "MinVersion": true},
+			"client/dtls": {"RootCAs": true, "ServerName": true, "ExtendedMasterSecret": true},
+			"server/dtls": {"Certificates": true, "ClientAuth": true, "ClientCAs": true, "ExtendedMasterSecret": true},
+		}[side+"/"+c.kind]
+		for _, fn := range names {
+			if !allow[fn] && fn != "InsecureSkipVerify" && fn != "InsecureSkipVerifyHello" && fn != "VerifyPeerCertificate" && fn != "VerifyConnection" {
+				r.Undecided("R-TLS.audited-fields", id+": field "+fn, p.instrPos(c.stores[fn]),
+					"the configuration sets "+fn+", which this audit does not cover (for instance a shared ClientSessionCache resumes sessions without validating the peer's chain against this config's RootCAs)")
+			}
+		}
 		// fields that weaken verification, for every config
 		for _, bad := range []string{"InsecureSkipVerify", "InsecureSkipVerifyHello"} {
 			if v, ok := c.fields[bad]; ok {
